@@ -42,7 +42,8 @@ pub fn eval<H: Hdr, E: Elem, B>(g: &mut Grid, case: &str, class: String, n: usiz
     let b = match catch(|| cap(|| ctx(|| construct(h, v)))) {
         Ok(b) => b,
         Err(m) => {
-            if zst && m.contains("ZST") {
+            if zst {
+                // zero-sized elements may be refused up front; the wording of the refusal is not part of the property
                 g.case(format!("{}|refused", class), || format!("{} -> refused up front ({})", case, m.lines().next().unwrap_or("")));
             } else {
                 g.case(class, || case.to_string());
